@@ -1,3 +1,89 @@
-From YV Require Import PyBase Token.
-Example c06_smoke : skip_space [] = [].
+(* C06 -- plain prose is a fixed point; special sequences follow the
+   documented table.  Only statements here, closed by `exact`.  Model: the
+   whole filter, coq/model/*.v, with the tables generated from /repo
+   (coq/gen/Catalogue.v, Tables.v).
+
+   (1) is proved end to end for every input, every language, package and
+   class selection and every fuel: if tex2txt() returns at all, it returns
+   the input with positions 1..n.  (2)-(4) are the scanner's longest-match
+   rule, the copy of ordinary characters and the replacement step of the
+   main loop; the table itself is read from /repo and compared with the
+   documented one in (5). *)
+From Coq Require Import String.
+From YV Require Import PyBase ShellMap Token Utils Scanner PState Exec Tex2txt
+                       ScanPlain ExecPlain SpecialsProofs Catalogue.
+Open Scope Z_scope.
+
+(* table obligations, discharged by computation on the generated tables *)
+Theorem C06_tables_ok : plain_tables_ok py_tables = true
+                        /\ desc_lenb (sp_specials (t_scan py_tables)) = true.
+Proof. exact (conj (eq_refl true) (eq_refl true)). Qed.
+Print Assumptions C06_tables_ok.
+
+(* (1) an input in which no %, #, backslash, special sequence or active
+   character of any language occurs is returned unchanged, character i at
+   position i (single-language mode, no replacement file) *)
+Theorem C06_plain_prose_fixed_point :
+  forall is_word files lang simple mods latex thresh fuel out,
+  plain_doc py_tables latex ->
+  run_tex2txt py_tables is_word files lang false simple mods [] latex [] None false
+              thresh fuel = Ok out ->
+  to_result out = TSingle latex (zseq 1 (length latex)).
+Proof.
+  exact (fun is_word files lang simple mods latex thresh fuel out =>
+           plain_fixed_point py_tables is_word files lang simple mods latex thresh fuel out
+                             (proj1 C06_tables_ok)).
+Qed.
+Print Assumptions C06_plain_prose_fixed_point.
+
+(* (2) longest match *)
+Theorem C06_longest_match : forall latex c s start t,
+  let P := t_scan py_tables in
+  sp_is_space P c = false -> N.eqb c c_percent = false -> N.eqb c c_hash = false ->
+  find (fun t => starts_with t (c :: s)) (sp_specials P) = Some t ->
+  next_token P latex (c :: s) start = (SpecialT start t, length t, [])
+  /\ starts_with t (c :: s) = true
+  /\ forall t', In t' (sp_specials P) -> starts_with t' (c :: s) = true ->
+                (length t' <= length t)%nat.
+Proof. exact (fun latex => next_token_special (t_scan py_tables) latex (proj2 C06_tables_ok)). Qed.
+Print Assumptions C06_longest_match.
+
+(* (3) every other character is copied unchanged *)
+Theorem C06_other_characters_copied : forall P latex c s start,
+  sp_is_space P c = false -> N.eqb c c_percent = false -> N.eqb c c_hash = false ->
+  N.eqb c c_backslash = false ->
+  find (fun t => starts_with t (c :: s)) (sp_specials P) = None ->
+  next_token P latex (c :: s) start = (TextT start [c], 1%nat, []).
+Proof. exact next_token_ordinary. Qed.
+Print Assumptions C06_other_characters_copied.
+
+(* (4) the replacement step *)
+Theorem C06_replacement_step : forall T rd rec fuel st t b env_stop rout v,
+  tk t = KSpecial ->
+  forallb (fun x => negb (txt_is t x))
+          [s2l "$"; s2l "\("; s2l "$$"; s2l "\["; s2l "\\"; s_lbrace; s_rbrace] = true ->
+  assoc (txt t) (t_special_values T) = Some v ->
+  step_seq T rd rec fuel st (t :: b) env_stop rout =
+  rec (TSeq b env_stop (mk KText (pos t) v (pfix t) :: ActionT (pos t) :: rout)) st.
+Proof. exact step_seq_special. Qed.
+Theorem C06_line_break_step : forall T rd rec fuel st t b env_stop rout,
+  tk t = KSpecial -> txt t = s2l "\\" ->
+  step_seq T rd rec fuel st (t :: b) env_stop rout =
+  (let '(st', rest) := Expand.parse_newline_option T st b true in
+   rec (TSeq rest env_stop (SpaceT (pos t) s_space :: ActionT (pos t) :: rout)) st').
+Proof. exact step_seq_newline. Qed.
+Print Assumptions C06_replacement_step.
+
+(* (5) the table read from /repo is the documented one *)
+Example C06_documented_table :
+  map (fun k => assoc (s2l k) (t_special_values py_tables))
+      ["--"; "---"; "``"; "''"; "~"; "\,"; "\%"; "\&"; "\$"; "\#"; "\_"; "\{"; "\}"; "&"]%string
+  = map Some [[8211]; [8212]; [8220]; [8221]; [160]; [8239]; [37]; [38]; [36]; [35]; [95];
+              [123]; [125]; [32]]%N.
+Proof. reflexivity. Qed.
+
+(* the premise of (1) is met by ordinary prose *)
+Example C06_nonvacuous :
+  plainb (t_scan py_tables) (okc py_tables)
+         (s2l "Plain prose, with (some) punctuation!  Two blanks.") = true.
 Proof. reflexivity. Qed.
